@@ -43,7 +43,7 @@ CONFIG = {
                          'renumbered.compared': 1500, 'clause.idempotence': 800, 'aromatic-spellings.compared': 2000,
                          'protonated.variants': 300, 'protonated.variants-two-or-more': 60, 'raw-kekule-inputs.thiele-compared': 150,
                          'n-substituted.variants': 100}},
-    'thorough': {'shards': 16, 'budget_s': 1800, 'n_corpus': 4200, 'k_renum': 8, 'max_forms': 400,
+    'thorough': {'shards': 16, 'budget_s': 1800, 'n_corpus': 4200, 'k_renum': 16, 'max_forms': 400,
                  'floors': {'evaluations': 50000, 'distinct_nontrivial': 2500, 'molecules': 4000, 'kekule-forms.enumerated': 15000,
                             'renumbered.compared': 25000, 'clause.idempotence': 4000, 'aromatic-spellings.compared': 8000,
                             'protonated.variants': 1000, 'protonated.variants-two-or-more': 200, 'raw-kekule-inputs.thiele-compared': 600,
@@ -111,7 +111,7 @@ def check(ctx, a0, src, cfg, rng):
     try:
         K.kekule()
     except Exception as e:
-        V('kekule-raises/%s' % type(e).__name__, '%s: %r' % (src, e), w)
+        V('kekule-raises/%s%s' % (type(e).__name__, '/n-metalated-azole' if G.n_metalated_azole(A) else ''), '%s: %r' % (src, e), w)
         return
     ca, ck = constitution(A), constitution(K)
     if ca[1] != ck[1]:
@@ -182,7 +182,7 @@ def check(ctx, a0, src, cfg, rng):
                 if n_forms >= cfg['max_forms']:
                     break
         except Exception as e:
-            V('enumerate_kekule-raises/%s' % type(e).__name__, '%s: %r' % (src, e), w)
+            V('enumerate_kekule-raises/%s%s' % (type(e).__name__, '/n-metalated-azole' if G.n_metalated_azole(A) else ''), '%s: %r' % (src, e), w)
             return
         if not n_forms and any(b.order == 4 for *_, b in A.bonds()):
             V('no-kekule-form-enumerated', src, w)
@@ -217,7 +217,7 @@ def check(ctx, a0, src, cfg, rng):
                 V('aromatic-form-depends-on-numbering/after-kekule', '%s: %s' % (src, T.diff_records(rec(ref, mp), rec(B))[:3]), w)
                 return
         except Exception as e:
-            V('kekule-raises-on-renumbered/%s' % type(e).__name__, '%s: %r' % (src, e), w)
+            V('kekule-raises-on-renumbered/%s%s' % (type(e).__name__, '/n-metalated-azole' if G.n_metalated_azole(A) else ''), '%s: %r' % (src, e), w)
             return
 
 
@@ -357,7 +357,8 @@ def raw_thiele(ctx, src):
     try:
         t.kekule()
     except Exception as e:
-        ctx.violation('kekule-raises/%s' % type(e).__name__, 'aromatic form %s of %s as written: %r' % (t, src, e), w)
+        ctx.violation('kekule-raises/%s%s' % (type(e).__name__, '/n-metalated-azole' if G.n_metalated_azole(t) else ''),
+                      'aromatic form %s of %s as written: %r' % (t, src, e), w)
 
 
 def n_substituted(ctx, m, src, cfg, rng):
